@@ -84,6 +84,8 @@ class Config:
         sigs.append('%d S%s' % (COUNT_JUMP, jargs)); intr.append('%d CountJmp(%s)' % (COUNT_JUMP, 'op=">"' if self.count_gt else ''))
         sigs += ['%d' % ANTI_SCRATCH, '%d' % NOP, '100', '101']
         sigs.append('3 S'); intr.append('3 Interrupt()')
+        # a plain (non-intrinsic) instruction that takes a label: keeps labels referenced from something that is not a jump
+        sigs.append('4 ot'); names.append('4 labelref')
         op = [200]
         def add(sig, text):
             sigs.append('%d %s' % (op[0], sig)); intr.append('%d %s' % (op[0], text)); op[0] += 1
